@@ -1005,6 +1005,10 @@ class Unit:
         if fcfg.get('prelude'):
             em.emit(fcfg['prelude'] + '\n', ('gen', None, 0))
         found = set()
+        try: known_consts = json.load(open(os.path.join(self.verif, 'contracts', 'known_consts.json')))
+        except Exception: known_consts = None
+        if known_consts is None:
+            raise LostAnchor('contracts/known_consts.json is missing')
         def want_plain(it):
             if it.kind in ('mod', 'macro'):
                 return False
@@ -1017,6 +1021,11 @@ class Unit:
             if ('%s %s' % (it.kind, it.name)) in fcfg.get('drop_items', []) or it.name in fcfg.get('drop_items', []):
                 return False
             if sel is None:
+                return True
+            if it.kind in ('const', 'static') and it.name not in known_consts.get(repo_file, []):
+                # a constant the pinned tree does not have (added by a change): extract it, so that code using it is
+                # decided instead of ending "cannot find value"
+                self.report['rewrites'].append({'rule': 'R36', 'file': repo_file, 'line': rustscan.line_of(src, it.start), 'before': '', 'after': 'new constant %s extracted' % it.name})
                 return True
             return ('%s %s' % (it.kind, it.name)) in sel or it.name in sel
         for it in items:
